@@ -88,8 +88,9 @@ def mean_edge(P, T):
     tot = 0.0; n = 0
     for (a, b, c) in T:
         for (x, y) in ((a, b), (b, c), (c, a)):
-            tot += math.sqrt(sum((P[x][i] - P[y][i]) ** 2 for i in range(3))); n += 1
-    return tot / n
+            if x < len(P) and y < len(P):
+                tot += math.sqrt(sum((P[x][i] - P[y][i]) ** 2 for i in range(3))); n += 1
+    return tot / max(n, 1)
 
 
 def mesh_lines(P, T):
